@@ -1,28 +1,4 @@
-import Demeter.Drv.Basic
+import Demeter.Drv.Json
 import Demeter.Drv.Uni
 open Demeter Demeter.Drv
-
-def allHandlers : List (String × Handler) := uniHandlers
-
-def dispatch (line : String) : String :=
-  match (line.splitOn " ") with
-  | [] => "ERR empty"
-  | fn :: args =>
-    match allHandlers.lookup fn with
-    | none => s!"ERR unknown-fn {fn}"
-    | some h => match h args.toArray with
-      | .ok s => s
-      | .error e => s!"ERR {e}"
-
-partial def loop (hin hout : IO.FS.Stream) : IO Unit := do
-  let line ← hin.getLine
-  if line.isEmpty then return ()
-  let line := (line.dropEndWhile (fun c => c == (Char.ofNat 10) || c == (Char.ofNat 13))).toString
-  hout.putStrLn (dispatch line)
-  loop hin hout
-
-def main : IO Unit := do
-  let hin ← IO.getStdin
-  let hout ← IO.getStdout
-  loop hin hout
-  hout.flush
+def main : IO Unit := serve uniHandlers uniJHandlers
